@@ -895,3 +895,20 @@ for _p, _a, _r in (("C02", "the patching core keeps no process-wide state; the i
                    ("C16", "the 32-bit ARM back end only saves the bytes it reads at the entry, it never branches on them", "verif_native_arm_refake on the T1-extracted back end"),
                    ("C17", "the injector's drop restores a guard only by dropping it (PatchGuard::drop flushes right after its write)", "c17_unwind_flush: flush requests observed by interposing __clear_cache")):
     PROPS[_p]["level_note"] = PROPS[_p]["level_note"] + _SCAN_NOTE % (_a, _r)
+
+
+# wave 9 (seed C12-i): the order harnesses have no symbolic input, so Kani gives no counterexample to play back; the
+# native replays of the same histories are tried in turn (same function faked twice: bytes; then: a page of ours
+# moved in at an early-released trampoline address must survive the injector's drop)
+def _replay_refake(verif):
+    a = _replay_bin("c02_history", [0, 0], verif)
+    if a.get("reproduced"):
+        return a
+    b = _replay_bin("c12_refake_foreign", [], verif)
+    if b.get("reproduced"):
+        return b
+    return dict(reproduced=False, same_function_twice=a, foreign_page=b)
+
+
+for _k in range(2, 8):
+    HARNESSES["c02_order_k%d" % _k]["replay"] = lambda vals, verif: _replay_refake(verif)
